@@ -23,7 +23,7 @@ META = {
     'design_ref': 'DESIGN.md section 4 C13',
     'theorems': ['C13_dispatch_v0', 'C13_dispatch_v1', 'C13_order_irrelevant_v0', 'C13_order_irrelevant_v1', 'C13_unknown_tag',
                  'C13_no_tag', 'C13_scalars_do_not_capture_dicts', 'C13_tag_not_unknown', 'C13_equal_names_refuted',
-                 'C13_equal_names_v1_refuted', 'C13_tag_key_before_first_dump_refuted'],
+                 'C13_equal_names_v1_refuted', 'C13_tag_key_before_first_dump_refuted', 'C13_member_auto_tag_refuted'],
     'tables': [],
     'level_text': ('Theorems proved in Coq for ALL families (any number of members, any field sets, scalar members and None mixed in), '
                    'all injective tag assignments (explicit / auto / mixed), all tag-key strings that are not a field, all Union argument '
@@ -52,6 +52,7 @@ META = {
 
 F9_ID = 'F9-C13-equal-names'
 F23_ID = 'F23-auto-tag-key-unknown-before-first-dump'
+F62_ID = 'F62-member-level-auto-tag-not-dumped'
 
 FIELD_POOL = [('a', 'int', None), ('b', 'str', None), ('d', 'List[int]', None), ('c', 'int', '3')]   # the defaulted field last
 FIELD_SETS = {   # relation -> list of field-index sets per member (cut to family size)
@@ -76,7 +77,7 @@ def expected_tag(cfg, i):
     m = cfg['members'][i]
     if m.get('tag'):
         return m['tag']
-    return m['pyname'] if cfg['container'].get('auto_assign_tags') else None
+    return m['pyname'] if (cfg['container'].get('auto_assign_tags') or m.get('own_auto')) else None
 
 
 def tag_key(cfg):
@@ -92,30 +93,37 @@ def values_for(m, rng):
 
 
 def gen_family(rng, equal_names):
+    """Members with the full product {explicit tag, none} x {member-level auto_assign_tags on, off} x
+    {container auto_assign_tags on, off}, restricted to members that carry a tag at all."""
     n = rng.choice([2, 2, 3, 3, 4])
     rel = rng.choice(sorted(FIELD_SETS))
     sets = FIELD_SETS[rel][:n]
     rng.shuffle(sets)
-    mode = rng.choice(['auto', 'explicit', 'mixed'])
+    root_auto = rng.random() < 0.5
     pool = rng.sample(ODD, n) if rng.random() < 0.5 else ['t%d' % i for i in range(n)]
     members = []
     for i in range(n):
-        explicit = mode == 'explicit' or (mode == 'mixed' and rng.random() < 0.5)
+        explicit = rng.random() < 0.5
+        own_auto = rng.random() < 0.35
+        if not explicit and not root_auto and not own_auto:
+            if rng.random() < 0.5:
+                explicit = True
+            else:
+                own_auto = True
         style = rng.choice(['inner', 'plain'])
         name = 'K%d' % i
         if equal_names and i < 2:
             name, style = 'Dup', 'plain'
         members.append({'pyname': name, 'style': style, 'fields': [list(FIELD_POOL[j]) for j in sorted(sets[i])],
-                        'tag': pool[i] if explicit else None, 'catchall': rng.random() < 0.35})
-    if mode == 'mixed' and all(m['tag'] is None for m in members):
-        members[0]['tag'] = pool[0]
-    return members, mode, rel
+                        'tag': pool[i] if explicit else None, 'catchall': rng.random() < 0.35, 'own_auto': own_auto})
+    n_expl = sum(1 for m in members if m['tag'] is not None)
+    mode = 'explicit' if n_expl == n else ('auto' if n_expl == 0 else 'mixed')
+    return members, mode, rel, root_auto
 
 
 def gen_config(rng, engine, mode, equal_names=False, order_idx=None):
-    members, tmode, rel = gen_family(rng, equal_names)
+    members, tmode, rel, auto = gen_family(rng, equal_names)
     n = len(members)
-    auto = tmode != 'explicit' or rng.random() < 0.3
     scalars = [s for s in ['int', 'str', 'bool', 'float', 'None'] if rng.random() < 0.3]
     if n + len(scalars) > 5:
         scalars = scalars[:5 - n]
@@ -126,9 +134,17 @@ def gen_config(rng, engine, mode, equal_names=False, order_idx=None):
     if tk is not None and (tk in fields or tk.lower() in fields):
         tk = 'type'
     cfg = {'engine': engine, 'mode': mode, 'members': members, 'order': args, 'relation': rel, 'tagging': tmode,
+           'doc_type': rng.choice(['dict', 'dict', 'OrderedDict', 'defaultdict', 'subclass']),
+           'history': rng.choice(['none', 'none', 'alone_dump', 'alone_load', 'alone_dump_load', 'alone_load_dump']),
            'container': {'tag_key': tk, 'auto_assign_tags': auto, 'position': rng.choice(POSITIONS),
                          'unknown': rng.choice([None, None, 'raise'])}}
-    cfg['ops'] = gen_ops(cfg, rng)
+    hist = []
+    for i in rng.sample(range(n), rng.choice([1, n])):       # one member, or every member, used on its own first
+        vals = values_for(members[i], rng)
+        for kind in {'none': [], 'alone_dump': ['alone_dump'], 'alone_load': ['alone_load'],
+                     'alone_dump_load': ['alone_dump', 'alone_load'], 'alone_load_dump': ['alone_load', 'alone_dump']}[cfg['history']]:
+            hist.append({'op': kind, 'member': i, 'values': vals, 'doc': vals})
+    cfg['ops'] = hist + gen_ops(cfg, rng)
     return cfg
 
 
@@ -214,11 +230,24 @@ def any_F9(cfg):
     return any(in_region_F9(cfg, i) for i in range(len(cfg['members'])))
 
 
+def pre_assigned(cfg):
+    """auto tags are assigned before the member loaders of the container are generated: only when the container
+    itself has auto_assign_tags and was dumped before its first load."""
+    return cfg['mode'] == 'roundtrip' and bool(cfg['container'].get('auto_assign_tags'))
+
+
 def in_region_F23(cfg, i):
     m = cfg['members'][i]
-    return (cfg['engine'] == 'v0' and cfg['mode'] == 'loadfirst' and m.get('tag') is None
-            and bool(cfg['container'].get('auto_assign_tags'))
+    return (cfg['engine'] == 'v0' and m.get('tag') is None and not pre_assigned(cfg)
             and (bool(m.get('catchall')) or cfg['container'].get('unknown') == 'raise'))
+
+
+def in_region_F62(cfg, i):
+    """the member's tag comes only from its OWN auto_assign_tags: the dumper emits no tag (unless the container's
+    Union parser was built before the member's dump function)."""
+    m = cfg['members'][i]
+    return (m.get('tag') is None and bool(m.get('own_auto')) and not cfg['container'].get('auto_assign_tags')
+            and cfg['mode'] == 'roundtrip')
 
 
 # --------------------------------------------------------------------------------------
@@ -254,6 +283,8 @@ def check_op(cfg, op, r):
         if not r['equal']:
             return ('load(dump(k)) != k: %r' % (r['loaded'],), i)
         return None
+    if op['op'] in ('alone_dump', 'alone_load'):
+        return None            # an earlier use of the member class on its own: no C13 predicate, only history
     if op['op'] == 'scalar':
         if 'err' in r or not r.get('equal'):
             return ('scalar member value %r does not survive dump/load: %r' % (op['value'], r), None)
@@ -315,9 +346,9 @@ def coq_jv(v):
 def coq_member(cfg, i):
     m = cfg['members'][i]
     dfl = coq_list(['(%s, %s)' % (coq_str(f), coq_jv(int(d))) for f, _, d in m['fields'] if d is not None])
-    return ('{| m_cid := %d%%N; m_name := %s; m_tag := %s; m_fields := %s; m_defaults := %s; m_catchall := %s; m_raise := %s |}'
+    return ('{| m_cid := %d%%N; m_name := %s; m_tag := %s; m_auto := %s; m_fields := %s; m_defaults := %s; m_catchall := %s; m_raise := %s |}'
             % (i, coq_str(m['pyname']), 'None' if m.get('tag') is None else '(Some %s)' % coq_str(m['tag']),
-               coq_list([coq_str(f) for f, _, _ in m['fields']]), dfl, 'true' if m.get('catchall') else 'false',
+               'true' if m.get('own_auto') else 'false', coq_list([coq_str(f) for f, _, _ in m['fields']]), dfl, 'true' if m.get('catchall') else 'false',
                'true' if cfg['container'].get('unknown') == 'raise' else 'false'))
 
 
@@ -420,7 +451,8 @@ def model_exprs(cfg, res, n):
             args.append('AScalar %s' % {'int': 'SInt', 'str': 'SStr', 'bool': 'SBool', 'float': 'SFloat'}[a])
     pre_lines.append('Definition a_%d : list arg := %s.' % (n, coq_list(args)))
     c, pos = 'c_%d' % n, POS_COQ[cfg['container']['position']]
-    pre = 'true' if cfg['mode'] == 'roundtrip' else 'false'
+    pre = 'true' if pre_assigned(cfg) else 'false'
+    built = False        # has the container's Union parser been built (an earlier load through the container)?
     if cfg['engine'] == 'v0':
         loader = '(load_union_v0 %s %s a_%d)' % (c, pre, n)
     else:
@@ -428,13 +460,21 @@ def model_exprs(cfg, res, n):
     for k, (op, r) in enumerate(zip(cfg['ops'], res['ops'])):
         if op['op'] == 'roundtrip':
             if 'dumped' not in r:
+                built = True
                 continue
             i = op['member']
             vals = coq_list(['(%s, %s)' % (coq_str(f), coq_jv(op['values'][f])) for f, _, _ in cfg['members'][i]['fields']])
-            out.append((k, 'dump', 'show_jv (dump_lv %s (LInst m_%d_%d %s []))' % (c, n, i, vals)))
-            doc = WRAP[cfg['container']['position']](uncanon(r['dumped']))
-            out.append((k, 'load', 'show_res (load_pos %s %s %s)' % (loader, pos, coq_jv(doc))))
+            out.append((k, 'dump', 'show_jv (dump_lv %s %s (LInst m_%d_%d %s []))' % (c, 'true' if built else 'false', n, i, vals)))
+            nested = uncanon(r['dumped'])
+            doc = WRAP[cfg['container']['position']](nested)
+            v1_coerces = cfg['engine'] == 'v1' and any(isinstance(a, str) and a != 'None' for a in cfg['order'])
+            if not (v1_coerces and tag_key(cfg) not in nested):     # untagged + v1 scalar loaders: oracle not supplied
+                out.append((k, 'load', 'show_res (load_pos %s %s %s)' % (loader, pos, coq_jv(doc))))
+            built = True
+        elif op['op'] == 'scalar':
+            built = True
         elif op['op'] == 'load':
+            built = True
             if op.get('expect') == 'no_tag' and cfg['engine'] == 'v1' and any(s in ('str', 'bool', 'float', 'int') for s in cfg['order'] if isinstance(s, str)):
                 continue      # v1 coercions of the scalar loaders are an oracle the harness does not supply
             doc = WRAP[cfg['container']['position']](op['doc'])
@@ -494,6 +534,8 @@ def op_regions(cfg, op):
         out.add(F9_ID)
     if (i is not None and in_region_F23(cfg, i)) or (F9_ID in out and any(in_region_F23(cfg, j) for j in range(len(cfg['members'])))):
         out.add(F23_ID)      # under F9 the loader of another member of the same name is the one that runs
+    if i is not None and in_region_F62(cfg, i):
+        out.add(F62_ID)
     return out
 
 
@@ -501,7 +543,7 @@ def run(ctx):
     resolved = set()
     for f in ctx.findings():
         w = f.get('witness')
-        if not isinstance(w, dict) or 'cfg' not in w or f['id'] not in (F9_ID, F23_ID):
+        if not isinstance(w, dict) or 'cfg' not in w or f['id'] not in (F9_ID, F23_ID, F62_ID):
             continue
         cfg = dict(w['cfg']); cfg.setdefault('mode', 'loadfirst' if cfg['ops'][0]['op'] == 'load' else 'roundtrip')
         bad = witness_fails(ctx, cfg)
@@ -509,7 +551,7 @@ def run(ctx):
         if bad is None:
             resolved.add(f['id'])      # repaired: the faithful model no longer applies inside that region
         ctx.known_finding(f['id'], still_fails=bad is not None,
-                          what='%s [observed: %s]' % (f['what'][:300], (bad or 'property holds')[:160]))
+                          what='%s [observed: %s]' % (f['what'][:300], (bad or 'property holds')[:160].replace('\n', ' ')))
 
     cfgs = gen_configs(ctx)
     results = run_configs(ctx, cfgs)
@@ -534,6 +576,11 @@ def run(ctx):
         ctx.hist('tagging', cfg['tagging'])
         ctx.hist('position', cfg['container']['position'])
         ctx.hist('scalars', len([a for a in cfg['order'] if isinstance(a, str)]))
+        ctx.hist('history', cfg['history'])
+        ctx.hist('doc_type', cfg['doc_type'])
+        for m_ in cfg['members']:
+            ctx.hist('tag x member auto x container auto', '%s/%s/%s' % ('explicit' if m_.get('tag') else 'none', bool(m_.get('own_auto')),
+                                                                        bool(cfg['container'].get('auto_assign_tags'))))
         ctx.hist('tag_key', 'default' if cfg['container']['tag_key'] is None else ('odd' if cfg['container']['tag_key'] in ODD else 'plain'))
         if res.get('setup'):
             # class definition / Meta binding must not fail for a well-formed family
@@ -549,6 +596,8 @@ def run(ctx):
                 ctx.hist('known_region', F9_ID)
             elif i is not None and in_region_F23(cfg, i) and ctx.is_open_region(F23_ID):
                 ctx.hist('known_region', F23_ID)
+            elif i is not None and in_region_F62(cfg, i) and op['op'] == 'roundtrip' and ctx.is_open_region(F62_ID):
+                ctx.hist('known_region', F62_ID)
             elif i is None and any_F9(cfg) and op.get('expect') == 'unknown_tag' and ctx.is_open_region(F9_ID):
                 ctx.hist('known_region', F9_ID)
             else:
